@@ -2,7 +2,9 @@ package sio
 
 import (
 	"bytes"
+	"time"
 
+	"github.com/karagenc/socket.io-go/adapter"
 	eioparser "github.com/karagenc/socket.io-go/engine.io/parser"
 	"github.com/karagenc/socket.io-go/parser"
 )
@@ -166,5 +168,52 @@ func verifH_C01_pipeline_c2s() {
 		verifAssert(len(got) == 1 && got[0].name == name && verifEqBytes(got[0].a, a) && verifEqBytes(got[0].b, b), "the event reaches exactly the peer's handler for its name, once, with byte-identical attachments in their places")
 	}
 	verifAssert(w.eio.closed == 0, "a well-formed event does not close the connection")
+	verifReach("end")
+}
+
+// C01_pipeline_recovery: the server -> client pipeline with connection state recovery ON: emit goes through the real
+// session-aware adapter (which logs the packet and appends its offset as a last argument), the frames travel as in
+// C01_pipeline_s2c, and the client - holding a session id - strips the offset before the handler: the handler gets
+// exactly the emitted attachments, once; emitting the same values twice yields two deliveries with equal
+// arguments (the adapter's encoding leaves the values intact).
+//
+//verif:unwind 40
+//verif:rand concrete
+//verif:sleep gate
+func verifH_C01_pipeline_recovery() {
+	w := &verifSrv{}
+	creator := func() parser.Parser { return &verifPipeParser{} }
+	verifServerWorldWith(w, creator, adapter.NewSessionAwareAdapterCreator(time.Hour), "/")
+	w.server.connectionStateRecovery.Enabled = true
+	w.conn.parser = &verifPipeParser{}
+	srv := w.verifConnected("/")["/"]
+	w.conn.eioPacketQueue.get() // drop the CONNECT reply
+
+	m, cl := verifClientWorld(&verifPipeParser{}, "/")
+	c := cl["/"]
+	c.setPID("pid1")
+	type rec struct{ a, b []byte }
+	var got []rec
+	c.OnEvent("alpha", func(a []byte, b []byte) { got = append(got, rec{a, b}) })
+	polling := verifAnyBool()
+	a := verifBytes(verifChoose(0, 2))
+	b := verifBytes(verifChoose(1, 2))
+	twice := verifAnyBool()
+	srv.Emit("alpha", a, b)
+	if twice {
+		srv.Emit("alpha", a, b)
+	}
+	verifCarry(m, w.conn.eioPacketQueue.get(), polling)
+	verifWaitQuiescent()
+	want := 1
+	if twice {
+		want = 2
+	}
+	verifAssert(len(got) == want, "with state recovery on, each emitted event is handed over exactly once")
+	for _, g := range got {
+		verifAssert(verifEqBytes(g.a, a) && verifEqBytes(g.b, b), "with byte-identical attachments in their places, the offset stripped")
+	}
+	// (the frame-preserving codec stand-in carries only the binary arguments; that the offset string is recorded and
+	// stripped is C08_glue_client's subject)
 	verifReach("end")
 }
